@@ -3,6 +3,7 @@ package props
 import (
 	"fmt"
 	"go/token"
+	"go/types"
 	"sort"
 	"strings"
 
@@ -92,6 +93,8 @@ func c04(r *core.Run) {
 	}
 	coveringRule(r, "R8")
 	c04NoBoundsPanic(r)
+	r.Rule("R11", "logging cannot panic: every method invoked on the service's optional logger (an interface field that SetLogger may set to nil) is dominated by the edge on which that field was tested non-nil - the logging helpers run inside the recover closure of request processing and on the listener goroutine before the request is handed to a worker, where a nil-interface call kills the process and the request is never answered", 3)
+	c04LoggerNilSafe(r, "R11")
 
 	// ---- R0 funnel ------------------------------------------------------
 	funnels := map[*ssa.Function]bool{}
@@ -1002,4 +1005,56 @@ func c04NoBoundsPanic(r *core.Run) {
 		}
 	}
 	r.Analysed["lookup_entry_bounds"] = n
+}
+
+// c04LoggerNilSafe: invokes on the service's logger field are guarded by a
+// non-nil test of that field.
+func c04LoggerNilSafe(r *core.Run, rule string) {
+	p := r.P
+	var lf core.Field
+	n := 0
+	if st, ok := structType(p, "", "Service"); ok {
+		for i := 0; i < st.NumFields(); i++ {
+			it, isI := st.Field(i).Type().Underlying().(*types.Interface)
+			if !isI {
+				continue
+			}
+			for j := 0; j < it.NumMethods(); j++ {
+				if it.Method(j).Name() == "Errorf" {
+					lf = core.Field{Struct: "Service", Name: st.Field(i).Name()}
+					n++
+				}
+			}
+		}
+	}
+	if n != 1 {
+		r.Unres(rule, "Service.<logger>", fmt.Sprintf("%d interface fields with an Errorf method", n))
+		return
+	}
+	for _, fn := range p.FuncsOfPkg("") {
+		for _, c := range core.Calls(fn) {
+			if !c.Common().IsInvoke() {
+				continue
+			}
+			f, ok := core.LoadedField(c.Common().Value)
+			if !ok || f != lf {
+				continue
+			}
+			guarded := false
+			for _, ed := range dominatingEdges(c) {
+				ci := core.Cond(ed.If.Cond)
+				if ci.Kind != "nilcmp" || !ci.HasFld || ci.Field != lf {
+					continue
+				}
+				nonNil := (ci.Op == token.NEQ) == (ed.Succ == 0)
+				if ci.Negate {
+					nonNil = !nonNil
+				}
+				if nonNil {
+					guarded = true
+				}
+			}
+			r.Check(guarded, rule, core.FuncName(fn), "logger."+c.Common().Method.Name()+"-behind-non-nil-test", p.InstrPos(c), "the logger was tested non-nil on every path to the call", "the logger is called on a path on which it was not tested non-nil (SetLogger(nil) is documented): a nil-interface call panics - in the recover closure of request processing or on the listener goroutine this kills the process and the request stays unanswered")
+		}
+	}
 }
